@@ -453,12 +453,71 @@ pub fn run(ctx: &Ctx) -> Result<(), String> {
         }
         ctx.cov("process_seed_spellings", json!({"cases": cases.len(), "servers_that_started": started.load(Relaxed)}));
     }
+    // every WORKER of the real server, in the server's documented modes (health-check port,
+    // per-client statistics, both, ENV source): each worker announces the seed's key, and the replies
+    // of all N workers (N distinct delegated keys) verify under it
+    {
+        use crate::proc::{free_port, probe_workers, ServerProc, Source, Written};
+        // not the repository's example seed (a server that fell back to a built-in seed must differ)
+        let seed_hex = "9d61b19deffd5a60ba844af492ec2cc44449c5697b326919703bac031cae7f60";
+        let seed: [u8; 32] = crypto::unhex(seed_hex).try_into().unwrap();
+        let want_pk = crypto::public_key(&seed);
+        let modes: Vec<(&str, bool, bool, Source)> = vec![("plain", false, false, Source::File), ("health", true, false, Source::File), ("stats", false, true, Source::File), ("health+stats", true, true, Source::Env)];
+        par_for(modes.len(), 1, |k, _| {
+            let (name, health, stats, src) = modes[k];
+            let n = 4usize;
+            let dir = crate::proc::scratch_dir();
+            for _attempt in 0..3 {
+                let port = free_port();
+                let mut w = Written::base(port);
+                w.set("seed", seed_hex);
+                w.set("num_workers", &n.to_string());
+                if health {
+                    w.set("health_check_port", &free_port().to_string());
+                }
+                if stats {
+                    w.set("client_stats", "on");
+                    w.set("persistence_directory", &dir.display().to_string());
+                }
+                let mut sp = match ServerProc::start(&w, src, &[]) {
+                    Ok(s) => s,
+                    Err(e) => {
+                        *failed.lock().unwrap() = Some(e);
+                        return;
+                    }
+                };
+                sp.wait_started(n, std::time::Duration::from_secs(10));
+                if sp.try_status().is_some() {
+                    continue; // port taken meanwhile (start-up failures are C15's concern)
+                }
+                evals.fetch_add(1, Relaxed);
+                nontrivial.fetch_add(1, Relaxed);
+                let so = sp.stdout();
+                let announced: Vec<String> = so.lines().filter(|l| l.contains("Long-term public key")).filter_map(|l| l.split(" : ").last()).map(|x| x.trim().to_string()).collect();
+                let detail = |m: String| json!({"kind":"process-workers","mode":name,"num_workers":n,"seed":seed_hex,"announced":announced,"want":hex(&want_pk),"message":m});
+                if announced.iter().any(|a| *a != hex(&want_pk)) {
+                    ctx.violation("announced-key-differs", "server-process", &format!("worker-announcement/{}", name), detail("a worker announces a key that is not the Ed25519 public key of the configured seed".into()));
+                }
+                let (keys, sent, bad) = probe_workers(port, &want_pk, n, 48 * n + 32, false);
+                certs_seen.fetch_add(sent as u64, Relaxed);
+                if bad > 0 {
+                    ctx.violation("dele-sig", "server-process", &format!("worker-replies/{}", name), detail(format!("{} of {} replies do not verify under the configured seed's key ({} workers answered validly)", bad, sent, keys.len())));
+                }
+                sp.kill();
+                break;
+            }
+            let _ = std::fs::remove_dir_all(&dir);
+        });
+        if let Some(e) = failed.lock().unwrap().take() {
+            return Err(e);
+        }
+    }
     ctx.cov("evaluations", json!(evals.load(Relaxed)));
     ctx.cov("distinct_nontrivial", json!(nontrivial.load(Relaxed)));
     ctx.cov("reply_certs_checked", json!(certs_seen.load(Relaxed)));
     ctx.cov("restart_seeds", json!(seeds.len()));
     ctx.cov("exhaustive", json!(true));
-    ctx.cov("rule", json!("key part: per seed of the structured alphabet (zero, ff, RFC 8032 vectors, single-bit, single-byte-value, seeded random) three constructions give public key == Ed25519(seed) (dalek direct, RFC 8032 anchored) and SRV == SHA-512(0xff||pk)[0..32]; all sequences of length <= L over {make_cert(classic), make_cert(ietf)} x {fresh online key, online key A again, online key B again} on ONE LongTermKey, each CERT = DELE{PUBK(the online key),MINT,MAXT} signed under that version's delegation context and NOT verifying under the other version's. Live part: per seed 4 restarts of a real in-process Server (two with fault_percentage 0, two with 50; replies parsed leniently so that deliberately invalid ones are examined too) x event histories (C09 alphabet); the announced key equals the reference key; the CERT of every datagram emitted by either responder passes the same check and its window contains the reply's MIDP; and the real Responder driven with batches in which some replies cannot be sent (unsendable return addresses): every reply that arrives, in that batch and all later ones, carries such a CERT. Process: the real server started from file and ENV with seeds whose hex spelling a YAML parser may read differently (all digits, leading zeros, exponent form, upper case): if it starts, it announces and certifies with the written seed's key. Non-trivial = a cert sequence or an emitted reply's CERT."));
+    ctx.cov("rule", json!("key part: per seed of the structured alphabet (zero, ff, RFC 8032 vectors, single-bit, single-byte-value, seeded random) three constructions give public key == Ed25519(seed) (dalek direct, RFC 8032 anchored) and SRV == SHA-512(0xff||pk)[0..32]; all sequences of length <= L over {make_cert(classic), make_cert(ietf)} x {fresh online key, online key A again, online key B again} on ONE LongTermKey, each CERT = DELE{PUBK(the online key),MINT,MAXT} signed under that version's delegation context and NOT verifying under the other version's. Live part: per seed 4 restarts of a real in-process Server (two with fault_percentage 0, two with 50; replies parsed leniently so that deliberately invalid ones are examined too) x event histories (C09 alphabet); the announced key equals the reference key; the CERT of every datagram emitted by either responder passes the same check and its window contains the reply's MIDP; and the real Responder driven with batches in which some replies cannot be sent (unsendable return addresses): every reply that arrives, in that batch and all later ones, carries such a CERT. Process: the real server started from file and ENV with seeds whose hex spelling a YAML parser may read differently (all digits, leading zeros, exponent form, upper case): if it starts, it announces and certifies with the written seed's key; a 4-worker server in the modes plain / health-check port / per-client statistics / both (ENV): every worker's announcement and the replies of all workers verify under the seed's key. Non-trivial = a cert sequence or an emitted reply's CERT."));
     ctx.sample(json!({"kind":"certseq","mask":"0b0110","len":4,"versions":["classic","ietf13","ietf13","classic"]}));
     ctx.sample(json!({"kind":"restart","restarts":4,"events":["C0","I1","step"]}));
     ctx.assume("ed25519-dalek arithmetic trusted (RFC 8032 vectors); seeds are a structured alphabet, not all 2^256");
